@@ -345,6 +345,9 @@ func TestVerifC17Sweep(t *testing.T) {
 	deadline := time.Now().Add(time.Duration(budget) * time.Second)
 	var done int64
 	nw := runtime.GOMAXPROCS(0)
+	if k, err := strconv.Atoi(os.Getenv("VERIF_C17_WORKERS")); err == nil && k > 0 {
+		nw = k
+	}
 	ch := make(chan job, len(jobs))
 	for _, j := range jobs {
 		ch <- j
